@@ -14,7 +14,7 @@ import os
 ID = "C12"
 LEVEL = "exploration"
 RULE = (
-    "alphabet of 55 requests (27 fixed incl. 100x100 / 144x100 grids + a base request with 21 one-argument-at-a-time variants and six single-precision twins of them covering every argument of the solver signature; incl. integer / list / numpy-integer / ndarray spellings and Fortran-ordered / transposed / strided source layouts of five requests, footprint/dispersion twins on identical geometry and same-shape different-physics pairs) (shapes 9x7 .. 48x40, odd sizes, truncated / over-requested modes, single and double precision, footprint and "
+    "alphabet of 57 requests (29 fixed incl. 100x100 / 144x100 grids + a base request with 21 one-argument-at-a-time variants and six single-precision twins of them covering every argument of the solver signature; incl. integer / list / numpy-integer / ndarray spellings and Fortran-ordered / transposed / strided source layouts of five requests, footprint/dispersion twins on identical geometry and same-shape different-physics pairs) (shapes 9x7 .. 48x40, odd sizes, truncated / over-requested modes, single and double precision, footprint and "
     "dispersion, default / zero / explicit halo, analytic, multi-level); histories of 60 operations drawn from {solve, set NUM_THREADS in "
     "1..8, reset_fft_manager, get_fft_manager(k), fftw_wisdom.pkl dropped / truncated / garbage / foreign, allocation noise}; 16 "
     "history runners execute concurrently (loaded machine).  non-trivial = a solve preceded by a different request, a thread change or a "
@@ -97,6 +97,8 @@ def requests():
     R["r25"] = dict(srf_flx=np.zeros((48, 64)), z=z25, profiles=p25, domain=(64.0, 48.0), levels=16, modes=(96, 80), halo=None, precision="double",
                     footprint=True, meas_pt=(44.0, 24.0))
     R["r26"] = dict(R["r25"], precision="single")
+    R["r27"] = dict(R["r25"], levels=[16, 4, 10])      # the same with several output levels in one call
+    R["r28"] = dict(R["r27"], precision="single")
     # one-argument-at-a-time family: a small base request and, for every argument of the solver signature, a request that
     # differs from the base in that argument only (state memoised on any proper subset of the arguments mixes one of these pairs)
     nzv = 7
@@ -134,7 +136,7 @@ def requests():
     return R
 
 
-PAIRS = {"r1": "r0", "r3": "r2", "r9": "r8", "v_single": "v0", "r26": "r25"}  # single -> its double counterpart
+PAIRS = {"r1": "r0", "r3": "r2", "r9": "r8", "v_single": "v0", "r26": "r25", "r28": "r27"}  # single -> its double counterpart
 TWINS = {"r11": "r2", "r12": "r5", "r13": "r0", "r14": "r4", "r10": "r0", "r15": "r4", "r16": "r5", "r17": "r0", "r18": "r8", "r19": "r4", "r20": "r14", "r21": "r2"}
 VARIANTS = ["v_flxvals", "v_flxshape", "v_z", "v_u", "v_v", "v_kx", "v_ky", "v_kz", "v_domain_scaled", "v_domain_swapped", "v_levels_order",
             "v_levels_other", "v_levels_scalar", "v_modes", "v_halo", "v_halo_none", "v_measpt", "v_bg", "v_analytic", "v_footprint", "v_single"]
